@@ -306,9 +306,47 @@ class BaseTheory:
             c = self.lookup_function_contract(fv.name)
             if c is not None:
                 return self.call_contract(ex, c, None, args, kwargs, fv.name)
+            fn = self.module_function(fv.name)
+            if fn is not None:
+                return ex.inline(fn, self.bind_args(ex, fn, None, args, kwargs), fv.name)
         if isinstance(fv, BoundM):
             return self.call_method(ex, fv.recv, fv.name, args, kwargs)
         raise Untranslatable(f"call of {fv!r}")
+
+    def module_function(self, name):
+        """a module-level private function of the verified modules that has no contract (a helper to be inlined)"""
+        if self.program is None or "." in name or not name.startswith("_"):
+            return None
+        for key, fn in getattr(self.program, "functions", {}).items():
+            if key.endswith("." + name) and isinstance(fn, ast.FunctionDef):
+                return fn
+        return None
+
+    def bind_args(self, ex, fn, recv, args, kwargs):
+        names = [a.arg for a in fn.args.posonlyargs] + [a.arg for a in fn.args.args]
+        amap = {}
+        if names and names[0] in ("self", "cls"):
+            if recv is not None:
+                amap[names[0]] = recv
+            names = names[1:]
+        for nm, v in zip(names, args):
+            amap[nm] = v
+        extra = list(args)[len(names):]
+        if fn.args.vararg:
+            amap[fn.args.vararg.arg] = TupV(extra)
+        elif extra:
+            raise PyRaise(ExcV("TypeError"))
+        for k, v in kwargs.items():
+            if k != "**":
+                amap[k] = v
+        defaults = dict(zip(names[len(names) - len(fn.args.defaults):], fn.args.defaults))
+        for nm in names:
+            if nm not in amap:
+                if nm in defaults and isinstance(defaults[nm], ast.Constant):
+                    amap[nm] = Conc(defaults[nm].value)
+                else:
+                    raise Untranslatable(f"argument {nm} of an inlined helper")
+        return amap
 
     def lookup_function_contract(self, name):
         for key, c in self.registry.items():
@@ -361,6 +399,10 @@ class BaseTheory:
         if isinstance(recv, ObjV) and recv.role in ("self", "super") and self.program is not None:
             c = self.lookup_method_contract(recv.cls, name, recv.info.get("after"))
             if c is None:
+                dcls, node = self.program.find_method(recv.cls, name, recv.info.get("after"))
+                if isinstance(node, ast.FunctionDef) and name.startswith("_") and not name.startswith("__"):
+                    obj = recv.info.get("obj", recv) if recv.role == "super" else recv
+                    return ex.inline(node, self.bind_args(ex, node, obj, args, kwargs), f"{recv.cls}.{name}")
                 raise Untranslatable(f"callee {recv.cls}.{name} has no contract")
             obj = recv.info.get("obj", recv) if recv.role == "super" else recv
             return self.call_contract(ex, c, obj, args, kwargs, name)
